@@ -49,7 +49,7 @@ RULE = ("cells 3-8 A wide, height 1.5-14 A, 1-14 atoms of 1-3 elements; slice th
 CLAUSES = ["additivity-infinite", "additivity-finite", "reslice-projection", "exactly-once", "membership-model",
            "boundary-upper-slice", "slice-window-atoms", "slice-content", "thickness-sum", "bad-thickness-refused"]
 QUICK = dict(n=260, time=45)
-THOROUGH = dict(n=12000, time=300, shards=16)
+THOROUGH = dict(n=92070, time=480, shards=16)
 
 ON = Fraction(2, 10 ** 13)        # |z' - E| <= ON  : the atom is on the boundary (float representations of the edge)
 CLEAR = Fraction(1, 10 ** 9)      # z' - E <= -CLEAR : the atom is clearly below the boundary
